@@ -40,13 +40,15 @@ Check C03_reason_codes_connack311 : forall b, b < 256 -> impl_connack311_code_ok
 Check C03_reason_codes_suback311 : forall b, b < 256 -> impl_suback311_code_ok b = spec_suback311_code_ok b.
 Check C03_reason_codes_qos : forall b, b < 256 -> impl_qos_ok b = spec_qos_ok b.
 Check C03_reason_codes_pfi : forall b, b < 256 -> impl_pfi_ok b = spec_pfi_ok b.
-Check C03_reason_codes_unsuback_refuted : exists b, b < 256 /\ impl_unsuback_code_ok b <> spec_unsuback_code_ok b.
-Check C03_reason_codes_unsuback_except_143_144 : forall b, b < 256 -> b <> 143 -> b <> 144 ->
-  impl_unsuback_code_ok b = spec_unsuback_code_ok b.
+Check C03_reason_codes_unsuback : forall b, b < 256 -> b <> 144 -> impl_unsuback_code_ok b = spec_unsuback_code_ok b.
+Check C03_reason_codes_unsuback_only_144 : forall b, b < 256 ->
+  impl_unsuback_code_ok b <> spec_unsuback_code_ok b -> b = 144.
+Check C03_reason_codes_unsuback_144_lenient : spec_unsuback_code_ok 144 = false /\ impl_unsuback_code_ok 144 = true.
+Check C03_reason_codes_unsuback_spec_accepted : forall b, b < 256 ->
+  spec_unsuback_code_ok b = true -> impl_unsuback_code_ok b = true.
 Check C03_faithful_packet : forall v p its compact first_byte body,
   legal_packet v p = true ->
   same_per_id (items_of p) its ->
-  (forall s, p = Unsuback s -> ~ In 143 (ua_codes s)) ->
   spec_body v p its compact = Some (first_byte, body) ->
   impl_decode_packet v first_byte body = Ok p.
 Check C03_faithful_connack_v5 : forall c its compact fb body,
@@ -61,16 +63,11 @@ Check C03_faithful_disconnect_v5 : forall d its compact fb body,
 Check C03_faithful_suback_v5 : forall s its compact fb body,
   legal_suback V5 s = true -> same_per_id (items_suback s) its ->
   spec_body V5 (Suback s) its compact = Some (fb, body) -> decode_suback_packet5 fb body = Ok (Suback s).
-Check C03_faithful_unsuback_v5_refuted :
-  exists s fb body,
-    legal_unsuback V5 s = true /\ spec_body V5 (Unsuback s) (items_unsuback s) 0 = Some (fb, body) /\
-    decode_unsuback_packet5 fb body = Err EDecodingFailure.
-Check C03_faithful_unsuback_v5_except_143 : forall s its compact fb body,
-  legal_unsuback V5 s = true -> ~ In 143 (ua_codes s) -> same_per_id (items_unsuback s) its ->
+Check C03_faithful_unsuback_v5 : forall s its compact fb body,
+  legal_unsuback V5 s = true -> same_per_id (items_unsuback s) its ->
   spec_body V5 (Unsuback s) its compact = Some (fb, body) -> decode_unsuback_packet5 fb body = Ok (Unsuback s).
 Check C03_faithful_stream : forall v p order compact bs rest max_size,
   spec_encode_with v p order compact = Some bs ->
-  (forall s, p = Unsuback s -> ~ In 143 (ua_codes s)) ->
   len bs <= effective_max max_size ->
   decode_bytes v max_size decoder_init (bs ++ rest) =
   (let '(d2, ps, r) := decode_bytes v max_size decoder_init rest in (d2, p :: ps, r)).
@@ -95,13 +92,14 @@ Print Assumptions C03_reason_codes_connack311.
 Print Assumptions C03_reason_codes_suback311.
 Print Assumptions C03_reason_codes_qos.
 Print Assumptions C03_reason_codes_pfi.
-Print Assumptions C03_reason_codes_unsuback_refuted.
-Print Assumptions C03_reason_codes_unsuback_except_143_144.
+Print Assumptions C03_reason_codes_unsuback.
+Print Assumptions C03_reason_codes_unsuback_only_144.
+Print Assumptions C03_reason_codes_unsuback_144_lenient.
+Print Assumptions C03_reason_codes_unsuback_spec_accepted.
 Print Assumptions C03_faithful_packet.
 Print Assumptions C03_faithful_connack_v5.
 Print Assumptions C03_faithful_publish_v5.
 Print Assumptions C03_faithful_disconnect_v5.
 Print Assumptions C03_faithful_suback_v5.
-Print Assumptions C03_faithful_unsuback_v5_refuted.
-Print Assumptions C03_faithful_unsuback_v5_except_143.
+Print Assumptions C03_faithful_unsuback_v5.
 Print Assumptions C03_faithful_stream.
